@@ -1,5 +1,6 @@
 import Crd.Model.Raw
 import Crd.Spec.SmfStrict
+import Crd.Spec.Oracle
 import Crd.Generated.Grammar
 import Crd.Generated.Defaults
 
@@ -172,6 +173,35 @@ def handle (op : String) : R String := do
   | "semitone" => do
     let d ← rDegree
     pure (match d.semitone with | some n => s!"ok {n}" | none => "none")
+  | "specsize" => do          -- specification only (no generated table): textbook size of an interval
+    let d ← rDegree
+    pure (match Spec.specSize d.value d.name with | some n => s!"ok {n}" | none => "none")
+  | "specscale" => do         -- specification only: the notes and signature theory gives a key
+    let s ← rStr
+    pure (match Spec.parseKeySimple s.toList with
+      | none => "none"
+      | some k => match Spec.specScaleNotes k with
+        | none => "none"
+        | some ns =>
+          let sg := Spec.specSignature k
+          s!"ok {hexOfString (Spec.keyStr k)} {sg.1} {sg.2} " ++ pList (fun n => hexOfString (Spec.snoteStr n)) ns)
+  | "specconv" => do          -- specification only: ROOT[/BASS][1] in a key, as (number, size) of root and bass
+    let key ← rStr; let bs ← rBytes
+    let txt := (bs.map fun b => Char.ofNat b)
+    let k? := if key = "" then some (⟨.C, false, .natural⟩ : Key) else Spec.parseKeySimple key.toList
+    pure (match k?, Spec.parseNoteSimple txt with
+      | some k, some (rl, ra, rest) =>
+        let r := Spec.specInterval k.name k.acc rl ra
+        (match rest with
+         | ['[', '1', ']'] => s!"ok {r.1} {r.2}"
+         | '/' :: r2 =>
+           (match Spec.parseNoteSimple r2 with
+            | some (bl, ba, ['[', '1', ']']) =>
+              let b := Spec.specInterval rl ra bl ba
+              s!"ok {r.1} {r.2} {b.1} {b.2}"
+            | _ => "none")
+         | _ => "none")
+      | _, _ => "none")
   | "degstr" => do let d ← rDegree; pure ("ok " ++ hexOfString d.str)
   | "parsedeg" => do
     let s ← rStr
